@@ -589,3 +589,105 @@ func walkNoLit(n ast.Node, fn func(ast.Node) bool) {
 		return fn(c)
 	})
 }
+
+// builtFields: v is a local holding an object under construction — created by new(T), &T{…}, T{…} or `var v T` and then
+// completed by stores v.f = e at the top level of f's body. Returns, per field name, the expression stored last (a
+// literal element or a later store). ok is false if v is not such a local, or a field is stored inside a branch or loop
+// (its final value then depends on the path).
+func (w *World) builtFields(f *Func, v types.Object) (map[string]ast.Expr, bool) {
+	if v == nil || f.Body == nil {
+		return nil, false
+	}
+	info := f.Pkg.TypesInfo
+	fields := map[string]ast.Expr{}
+	created := false
+	fromLit := func(e ast.Expr) bool {
+		e = unparen(e)
+		if u, ok := e.(*ast.UnaryExpr); ok && u.Op == token.AND {
+			e = unparen(u.X)
+		}
+		switch x := e.(type) {
+		case *ast.CompositeLit:
+			for _, el := range x.Elts {
+				kv, ok := el.(*ast.KeyValueExpr)
+				if !ok {
+					return false
+				}
+				if id, ok := kv.Key.(*ast.Ident); ok {
+					fields[id.Name] = kv.Value
+				}
+			}
+			return true
+		case *ast.CallExpr:
+			return isBuiltin(info, x, "new")
+		}
+		return false
+	}
+	okAll := true
+	for _, st := range f.Body.List {
+		switch s := st.(type) {
+		case *ast.AssignStmt:
+			if len(s.Lhs) != len(s.Rhs) {
+				break
+			}
+			for i, l := range s.Lhs {
+				if id := identOf(l); id != nil && (info.Defs[id] == v || info.Uses[id] == v) {
+					if created || !fromLit(s.Rhs[i]) {
+						okAll = false
+					}
+					created = true
+					continue
+				}
+				if se, ok := unparen(l).(*ast.SelectorExpr); ok {
+					if id := identOf(se.X); id != nil && info.Uses[id] == v && created {
+						fields[se.Sel.Name] = s.Rhs[i]
+					}
+				}
+			}
+		case *ast.DeclStmt:
+			if gd, ok := s.Decl.(*ast.GenDecl); ok {
+				for _, sp := range gd.Specs {
+					if vs, ok := sp.(*ast.ValueSpec); ok {
+						for i, nm := range vs.Names {
+							if info.Defs[nm] == v {
+								if len(vs.Values) == 0 {
+									created = true
+								} else if i < len(vs.Values) && fromLit(vs.Values[i]) {
+									created = true
+								} else {
+									okAll = false
+								}
+							}
+						}
+					}
+				}
+			}
+		}
+	}
+	if !created || !okAll {
+		return nil, false
+	}
+	// no store to a field of v below the top level
+	nested := false
+	for _, st := range f.Body.List {
+		if _, isAssign := st.(*ast.AssignStmt); isAssign {
+			continue
+		}
+		walkNoLit(st, func(n ast.Node) bool {
+			if as, ok := n.(*ast.AssignStmt); ok {
+				for _, l := range as.Lhs {
+					if se, ok := unparen(l).(*ast.SelectorExpr); ok {
+						if id := identOf(se.X); id != nil && info.Uses[id] == v {
+							nested = true
+						}
+					}
+				}
+			}
+			return true
+		})
+	}
+	if nested {
+		return nil, false
+	}
+	return fields, true
+}
